@@ -191,6 +191,22 @@ M = [
   "((6 * n - 2 * nn + 7 * w + ww + nee + 3 * ne + 8) / 16) as i32", "((6 * n - 2 * nn + 7 * w + ww + nee + 3 * ne + 8) >> 4) as i32"),
  ("c03_predictor_avg_ne_uses_nw", "C03", "predict|formulas", "crates/jxl-modular/src/predictor.rs",
   "                ((predictor.n as i64 + predictor.ne::<EDGE>() as i64) / 2) as i32", "                ((predictor.n as i64 + predictor.nw as i64) / 2) as i32"),
+ ("c15_quantize_u8_no_round", "C15", "float-to-u8|value", "crates/jxl-oxide/src/fb.rs",
+  "            *self = (val * 255.0 + 0.5).clamp(0.0, 255.0) as u8;", "            *self = (val * 255.0).clamp(0.0, 255.0) as u8;"),
+ ("c15_quantize_u16_scale", "C15", "float-to-u16|value", "crates/jxl-oxide/src/fb.rs",
+  "            *self = (val * 65535.0 + 0.5).clamp(0.0, 65535.0) as u16;", "            *self = (val * 65536.0 + 0.5).clamp(0.0, 65535.0) as u16;"),
+ ("c15_parse_integer_sample_div", "C15", "sample-to-float|value", "crates/jxl-image/src/lib.rs",
+  "                let div = (1i32 << bits_per_sample) - 1;", "                let div = 1i32 << bits_per_sample;"),
+ ("c06_region_downsample_no_widen", "C06", "region|set-semantics|downsample", "crates/jxl-render/src/region.rs",
+  "        let adj_width = self.width + self.left.abs_diff(new_left << factor);\n        let adj_height", "        let adj_width = self.width;\n        let adj_height"),
+ ("c06_region_container_aligned_floor", "C06", "region|set-semantics|container_aligned", "crates/jxl-render/src/region.rs",
+  "            width: (self.width + x_diff + add) & mask,", "            width: (self.width + add) & mask,"),
+ ("c14_read_u64_offset", "C14", "read_u64|layout", "crates/jxl-bitstream/src/bitstream.rs",
+  "            2 => self.read_bits(8)? as u64 + 17,", "            2 => self.read_bits(8)? as u64 + 16,"),
+ ("c14_f16_subnormal_scale", "C14", "read_f16_as_f32|value", "crates/jxl-bitstream/src/bitstream.rs",
+  "            let val = (1.0 / 16384.0) * (mantissa as f32 / 1024.0);", "            let val = (1.0 / 32768.0) * (mantissa as f32 / 1024.0);"),
+ ("c12_unpack_i16_sign", "C12", "unpack_signed_u32|value", "crates/jxl-modular/src/sample.rs",
+  "        let flip = 0u16.wrapping_sub(bit);\n        (base ^ flip) as i16", "        let flip = 0u16.wrapping_sub(bit);\n        (base ^ flip).wrapping_add(bit) as i16"),
  ("c01_cluster_map_decoder_two_dists", "C01", "bound-lost", "crates/jxl-coding/src/lib.rs",
   "            Decoder::parse(bitstream, 1)?\n        };\n        decoder.begin(bitstream)?;", "            Decoder::parse(bitstream, num_dist.min(2))?\n        };\n        decoder.begin(bitstream)?;"),
 ]
